@@ -819,6 +819,7 @@ Inductive sop :=
 | PMut (i view d : nat)          (* public mutator: reads view, raw write, invalidation *)
 | PMutNoInval (i view d : nat)   (* operation that writes the data and does NOT invalidate *)
 | PQuery (i view obs : nat)
+| PTouch (i view : nat)          (* the attribute was evaluated but its answer is not compared *)
 | PText (i d : nat)
 | PFilled (i : nat) (ks : list nat).
 
@@ -856,6 +857,10 @@ Definition step_session (w : list pst) (o : sop) : list pst * nat :=
           | [] => (w', 0)
           | _ => (w', 3)
           end
+      | None => (w, 1) end
+  | PTouch i view =>
+      match nth_error w i with
+      | Some s => (set_nth nat (list nat) w i (snd (pquery view s)), 0)
       | None => (w, 1) end
   | PText i d => match nth_error w i with Some s => (w, if Nat.eqb (sdata s) d then 0 else 1) | None => (w, 1) end
   | PFilled i ks =>
